@@ -782,6 +782,46 @@ def _sink_returns(tree: ast.AST) -> None:
           for body in all_blocks():
             if changed:
                 break
+            # a short straight-line tail after a conditional (`if ..: a = X else: a = Y` ; `m = f(a)` ; `c = g(m)` ; `return c(..)`) goes into
+            # every branch together with the return, so that each case is one straight path
+            if len(body) >= 3 and isinstance(body[-1], ast.Return):
+                j_ = len(body) - 2
+                while j_ >= 0 and isinstance(body[j_], ast.Assign) and len(body) - 1 - j_ <= 3:
+                    j_ -= 1
+                tail_ = body[j_ + 1:-1]
+                def selection_only(st_) -> bool:
+                    # the conditional merely selects literals (names of modules / classes, enum members, constants) per case
+                    def simple(v):
+                        return isinstance(v, (ast.Constant, ast.Name)) or (isinstance(v, ast.Attribute) and simple(v.value)) \
+                            or (isinstance(v, (ast.Tuple, ast.List)) and all(simple(x) for x in v.elts))
+                    for x in ast.walk(st_):
+                        if isinstance(x, ast.stmt) and not isinstance(x, (ast.If, ast.Pass, ast.Assert, ast.Assign, ast.Import, ast.ImportFrom)):
+                            return False
+                        if isinstance(x, ast.Assign) and not (simple(x.value) and all(isinstance(t_, ast.Name) or (isinstance(t_, (ast.Tuple, ast.List)) and all(isinstance(e_, ast.Name) for e_ in t_.elts))
+                                                                                        for t_ in x.targets)):
+                            return False
+                    return True
+                if tail_ and j_ >= 0 and isinstance(body[j_], ast.If) and not leaves([body[j_]]) and selection_only(body[j_]) \
+                        and not any(isinstance(n, (ast.For, ast.While, ast.Try, ast.With, ast.FunctionDef, ast.Lambda)) for n in ast.walk(body[j_])) \
+                        and sum(1 for t_ in tail_ + [body[-1]] for n in ast.walk(t_)) <= 80 and sum(1 for n in ast.walk(body[j_]) if isinstance(n, ast.If)) <= 8:
+                    full = tail_ + [body[-1]]
+                    del body[j_ + 1:]
+
+                    def push_tail(block, depth=0):
+                        last = block[-1] if block else None
+                        if isinstance(last, ast.If) and depth < 8 and not leaves([last]):
+                            for br in ("body", "orelse"):
+                                b = getattr(last, br)
+                                if not leaves(b):
+                                    if b and isinstance(b[-1], ast.If):
+                                        push_tail(b, depth + 1)
+                                    else:
+                                        b.extend(_copy.deepcopy(x) for x in full)
+                            return
+                        block.extend(_copy.deepcopy(x) for x in full)
+                    push_tail(body)
+                    changed = True
+                    continue
             # `v = E` directly followed by `return v`, v read by nothing but returns: `return E`
             if len(body) >= 2 and isinstance(body[-1], ast.Return) and isinstance(body[-1].value, ast.Name) and isinstance(body[-2], ast.Assign) \
                     and len(body[-2].targets) == 1 and isinstance(body[-2].targets[0], ast.Name) and body[-2].targets[0].id == body[-1].value.id \
